@@ -249,6 +249,17 @@ def rule_cache(ctx, rep, rid="R-C11-cache"):
                         r.finding(inst, loc_str(bd.f, s[3]), "Source::new does not start with an empty cache")
                 else:
                     r.finding(inst, loc_str(bd.f, s[3]), "Source constructed outside Source::new")
+        # the cached parse result is handed out, never taken apart: a mutable use of `library` (mem::take of the diagnostics, Option::take,
+        # replace) other than the assignment that fills it leaves a cache that no longer is the parse of the text
+        k_ = 0
+        for _, kind, pl in bd.place_uses():
+            if kind != "mutref":
+                continue
+            fs_ = [x for x in bd.root(pl)[1] if isinstance(x, list) and x[0] == "f"]
+            if any(x[3] == SRC and x[2] == "library" for x in fs_):
+                k_ += 1
+                r.finding("%s|mutable use of Source.library#%d" % (fn, k_), "%s:%d" % (bd.f["file"], bd.f["line"]), "the cached parse result is borrowed mutably (to take or replace a part of it): after the "
+                          "first answer the cache is no longer the parse of the text - a document that does not parse yields its diagnostics once and then nothing")
         # mutations of FileBackedProject.sources
         for c in bd.calls():
             if not c.callee or not c.callee.startswith("std::collections::hash::map::HashMap::") and not c.callee.startswith("alloc::collections::btree::map::BTreeMap::"):
@@ -482,6 +493,31 @@ def text_origin(b, operand, depth=12):
     return ("?", "depth")
 
 
+def rule_nodedup(ctx, rep, rid="R-C11-nodedup"):
+    """The language server publishes, per document, the diagnostics `check` would print for it.  A keyed container of diagnostics (a map or
+    set built to sort or de-duplicate them) silently merges two diagnostics with the same key - the same code at the same offset in two
+    different documents, for instance - and one document is told it has no problem."""
+    r = rep.rule(rid, "diagnostics are never collected into a map or set in the language-server crate (two diagnostics with equal keys would become one)",
+                 floor=0, floor_what="keyed containers of diagnostics")
+    n = 0
+    for b in sorted(ctx.prog.bodies.values(), key=lambda x: x.id):
+        if b.f["crate"] != "ironplcc" or "::test" in norm(b.id):
+            continue
+        k = 0
+        for c in sorted(b.calls(), key=lambda c: (c.loc[0], c.loc[1])):
+            nm = c.callee or c.u or ""
+            ga = c.ga or ""
+            keyed = re.search(r"(BTreeMap|HashMap|BTreeSet|HashSet)<", ga) or re.search(r"(BTreeMap|HashMap|BTreeSet|HashSet)", nm)
+            if keyed and "diagnostic::Diagnostic" in ga and not re.search(r"&'?\{?erased\}? ?ironplc_dsl::diagnostic::Diagnostic", ga) and nm.split("::")[-1] in ("collect", "from_iter", "insert", "extend", "entry"):
+                k += 1
+                n += 1
+                r.finding("%s|%s#%d" % (norm(b.id).replace("ironplcc::", ""), nm.split("::")[-1], k), loc_str(b.f, c.loc), "diagnostics are put into a keyed container (%s): two diagnostics with the "
+                          "same key collapse into one, so a document can be published as clean although `check` reports a problem in it" % (keyed.group(1)))
+    if not n:
+        r.count_override = 1
+        r.note("no keyed container of diagnostics today (zero expected; positive example: seeded/C11-M)")
+
+
 def rule_doctext(ctx, rep, rid="R-C11-doctext"):
     """The diagnostics of a document are those of the text the client sent only if that text reaches the analysed Source unchanged.
     Four hand-overs: notification parameter -> LspProject::change_text_document -> Project::change_text_document -> Source::new ->
@@ -552,6 +588,7 @@ def run(ctx, rep):
     rule_keyorder(ctx, rep)
     rule_idorigin(ctx, rep)
     rule_doctext(ctx, rep)
+    rule_nodedup(ctx, rep)
     # one document, one entry: the key of the project's file table tells distinct paths apart and is ordered the same way in every history
     from rules.c06 import rule_types
     rule_types(ctx, rep, rid="R-C11-fileid")
